@@ -22,6 +22,8 @@ class StatementSplitter:
         self._begin_depth = 0
         self._loop_pending = False
         self._after_end = False
+        self._at_start = False
+        self._clause_if = False
 
         self.consume_ws = False
         self.tokens = []
@@ -35,6 +37,16 @@ class StatementSplitter:
         if ttype not in T.Whitespace and ttype not in T.Comment:
             self._after_end = False
 
+        # IF [NOT] EXISTS that does not begin a statement of the block is a
+        # clause (DROP TABLE IF EXISTS, CREATE TABLE IF NOT EXISTS)
+        at_start, clause_if = self._at_start, self._clause_if
+        if ttype not in T.Whitespace and ttype not in T.Comment:
+            self._clause_if = False
+            self._at_start = (
+                ttype is T.Punctuation and value == ';'
+                or ttype in T.Keyword and value.upper() in (
+                    'BEGIN', 'ATOMIC', 'THEN', 'ELSE', 'LOOP', 'DO'))
+
         # parenthesis increase/decrease a level
         if ttype is T.Punctuation and value == '(':
             return 1
@@ -47,6 +59,13 @@ class StatementSplitter:
         # Also to note, once entered an If statement you are done and basically
         # returning
         unified = ' '.join(value.upper().split())
+
+        if clause_if:
+            if unified == 'NOT':
+                self._clause_if = True
+            elif unified == 'EXISTS':
+                # the IF has not opened a block
+                return -1
 
         # three keywords begin with CREATE, but only one of them is DDL
         # DDL Create though can contain more words such as "or replace"
@@ -95,6 +114,8 @@ class StatementSplitter:
             elif unified == 'WHILE':
                 # WHILE ... LOOP ends with END LOOP
                 self._loop_pending = True
+            elif unified == 'IF':
+                self._clause_if = not at_start
             return 1
 
         if unified == 'DO':
